@@ -142,7 +142,9 @@ def run_one(exe, workdir, tag, prog, Guser, cfg, props, backend):
         hang = any(s == "QUIESCENT-INCOMPLETE" for s in rr.status.values())
         crashed = (not hang) and (rr.rc != 0 or any(s != "FINISHED" for s in rr.status.values()))
         if crashed:
-            last = [(props[0], "program died rc=%s before finishing: %s" % (rr.rc, rr.stderr[-600:].replace("\n", " | ")))]
+            key = [l for l in rr.stderr.splitlines() if any(w in l for w in ("Assertion", "Signal:", "Failing at", "rror", "atal", "abort", "VS-"))]
+            last = [(props[0], "program died rc=%s before finishing (statuses %s): %s || %s" % (
+                rr.rc, sorted(str(x) for x in rr.status.values()), " | ".join(key[:6])[:700], rr.stderr[-300:].replace("\n", " | ")))]
             if tries >= max_tries:
                 return last, "crash", ref
             continue
